@@ -2,7 +2,7 @@
 From Coq Require Import Arith NArith List Bool.
 From Verif Require Import Model.Merkle Model.MerkleSpec Model.TreeStore Proofs.Frontier Proofs.Rht Proofs.Sparse
   Proofs.TreeStoreProofs Proofs.TreeStoreCorollaries Model.Contracts Proofs.ContractProofs Proofs.ContractVerify.
-From Verif Require Gen.GenTree Proofs.GenAgreeTree.
+From Verif Require Gen.GenTree Proofs.GenAgreeTree Proofs.GenAgreeSiblings Base.GoNum.
 Import ListNotations.
 Local Close Scope N_scope.
 
@@ -109,6 +109,42 @@ Proof.
   apply GenAgreeTree.calc_bit_ext. intros h. apply Proofs.BitFacts.bitN_of_nat.
 Qed.
 
+(* ... and so are the two top-down walks of the reverse hash table, translated with their downward loops, `continue`, early
+   returns and named results; the database read t.getRHTNode is an oracle with the three outcomes the code distinguishes.
+   `table` projects the oracle to the model's table, `zh_of zhs h` = zhs[h] (Tree.zeroHashes). *)
+Theorem C08_generated_getSiblings_is_model : forall (hash : Type) (hash0 : hash) (rht : hash -> GoNum.lookup (GenTree.TreeNode hash)) (zhs : list hash),
+  GenAgreeSiblings.no_fail hash rht -> forall index root,
+  GenTree.getSiblings hash hash0 rht zhs index root =
+  (swalk (GenAgreeSiblings.zh_of hash hash0 zhs) (GenAgreeSiblings.table hash rht) 32 root (fun h => N.testbit index (N.of_nat h)),
+   swalk_used_zero (GenAgreeSiblings.table hash rht) 32 root (fun h => N.testbit index (N.of_nat h)), GoNum.EOK).
+Proof. exact GenAgreeSiblings.getSiblings_agree. Qed.
+Theorem C08_generated_getSiblings_reports_other_errors : forall (hash : Type) (hash0 : hash) (rht : hash -> GoNum.lookup (GenTree.TreeNode hash)) (zhs : list hash) index root,
+  rht root = GoNum.LFail -> snd (GenTree.getSiblings hash hash0 rht zhs index root) = GoNum.EFail.
+Proof. exact GenAgreeSiblings.getSiblings_fail_is_error. Qed.
+Theorem C08_generated_GetLeaf_is_model : forall (hash : Type) (hash0 : hash) (rht : hash -> GoNum.lookup (GenTree.TreeNode hash)) index root,
+  match walk (GenAgreeSiblings.table hash rht) 32 root (fun h => N.testbit index (N.of_nat h)) with
+  | Some (_, y) => GenTree.GetLeaf hash hash0 rht index root = (y, GoNum.EOK)
+  | None => fst (GenTree.GetLeaf hash hash0 rht index root) = hash0 /\ snd (GenTree.GetLeaf hash hash0 rht index root) <> GoNum.EOK
+  end.
+Proof. exact GenAgreeSiblings.GetLeaf_agree. Qed.
+(* the proof the executable store model serves (what the harness compares with the real GetProof) IS the translated loop's result *)
+Theorem C08_generated_getSiblings_is_store_get_proof : forall (db : tdb) (idx root : N),
+  GenTree.getSiblings N 0%N (GenAgreeSiblings.rht_of db) zero_table idx root =
+  (TreeStore.get_proof db idx root, TreeStore.get_proof_used_zero db idx root, GoNum.EOK).
+Proof. exact GenAgreeSiblings.getSiblings_is_store_get_proof. Qed.
+(* the translated serving path end to end: in EVERY reachable state of the store, for every recorded version k and covered index
+   j < k, the translated getSiblings finds all 32 siblings without fallback or error, the translated CalculateRoot over them and
+   the true j-th leaf returns exactly the root asked for, and the translated GetLeaf returns that leaf *)
+Theorem C08_generated_serving_path_verifies : forall (node : N -> N -> N) (zhs : list N),
+  (forall a b c d, node a b = node c d -> a = c /\ b = d) ->
+  (forall h, h <= 32 -> GenAgreeSiblings.zh_of N 0%N zhs h = zero node 0%N h) ->
+  forall db mem L k j, Reach 32 node (GenAgreeSiblings.zh_of N 0%N zhs) db mem L -> j < k -> k <= length L ->
+  let root := mroot node 0%N (lf L) 32 k in
+  exists s, GenTree.getSiblings N 0%N (GenAgreeSiblings.rht_of db) zhs (N.of_nat j) root = (s, false, GoNum.EOK) /\
+            GenTree.CalculateRoot N node 0%N (lf L j) s (N.of_nat j) = root /\
+            GenTree.GetLeaf N 0%N (GenAgreeSiblings.rht_of db) (N.of_nat j) root = (lf L j, GoNum.EOK).
+Proof. exact GenAgreeSiblings.generated_serving_path_verifies. Qed.
+
 Print Assumptions C08_wf_preserved_by_insert.
 Print Assumptions C08_store_proof_verifies.
 Print Assumptions C08_contract_accepts_served_proof.
@@ -121,3 +157,8 @@ Print Assumptions C08_older_versions_stay_closed.
 Print Assumptions C08_updatable_proof_verifies.
 Print Assumptions C08_generated_CalculateRoot_is_model.
 Print Assumptions C08_generated_CalculateRoot_accepts_walk.
+Print Assumptions C08_generated_getSiblings_is_model.
+Print Assumptions C08_generated_getSiblings_reports_other_errors.
+Print Assumptions C08_generated_GetLeaf_is_model.
+Print Assumptions C08_generated_getSiblings_is_store_get_proof.
+Print Assumptions C08_generated_serving_path_verifies.
